@@ -309,6 +309,9 @@ def check(ctx):
         None when an unknown helper call on the way could hold the test (the rule abstains for this site)"""
         if g.guarded(n_, lambda e: mentions(src(e)), None) or mentions(src(g.node(n_).ast)):
             return True
+        tests = g.ids(lambda x: x.kind == "test" and mentions(src(x.ast)))
+        if tests and g.must_precede(tests, [n_]) is None:
+            return True                 # every path to the site passes one of several such tests (e.g. one per branch of an inlined helper)
         helper_nodes, unknown = [], False
         for k in g.ids(lambda x: x.kind == "stmt"):
             for c in walk_local(g.node(k).ast):
@@ -351,7 +354,11 @@ def check(ctx):
         if len(delivers) < 6:
             raise Abstain("delivery sites of the plain shape gotItem(..) / listStack.append(..) not found")
         for n_ in delivers:
-            verdict = limit_guarded(g, n_, lambda t_: "prefixLimit" in t_ and ("len(" in t_ or "pos" in t_))
+            # a test against prefixLimit counts unless what it compares is the decoded value (derives from b1282int): digits, not value, are limited
+            value_names = {t.id for st in ast.walk(nd) if isinstance(st, ast.Assign) and any(isinstance(c, ast.Call) and call_name(c) == "b1282int" for c in ast.walk(st.value))
+                           for t in st.targets if isinstance(t, ast.Name)}
+            verdict = limit_guarded(g, n_, lambda t_: "prefixLimit" in t_ and "b1282int" not in t_ and not any(
+                __import__("re").search(r"(?<![A-Za-z0-9_])" + v + r"(?![A-Za-z0-9_])", t_) for v in value_names if v not in ("num",) or "len(" not in t_))
             if verdict is None:
                 raise Abstain("a module-level helper on the way may hold the prefix test")
             ctx.check(verdict, "limits-cfg/prefix-digit-test-dominates", ctx.construct(base + "Banana.dataReceived", g.node(n_).ast),
@@ -598,6 +605,7 @@ def check(ctx):
 
 _NEGD = "            elif typebyte == NEG:\n                buffer = rest\n                num = -b1282int(num)\n"
 MUTANTS = [
+    Mutant('prefix-test-missing-on-one-branch', BANANA, '            if len(num) > self.prefixLimit:\n                raise BananaError(\n                    "Security precaution: longer than %d bytes worth of prefix"\n                    % (self.prefixLimit,)\n                )\n', '            if typebyte == FLOAT:\n                pass\n            else:\n                if len(num) > self.prefixLimit:\n                    raise BananaError("Security precaution: prefix too long")\n', expect_rule='limits-cfg/prefix-digit-test-dominates'),
     Mutant("neg-decoded-positive", BANANA, _NEGD, "            elif typebyte == NEG:\n                buffer = rest\n                num = b1282int(num)\n", expect_rule="decode/step"),
     Mutant("longneg-decoded-positive", BANANA, "                gotItem(-num)\n", "                gotItem(num)\n", expect_rule="decode/step"),
     Mutant("encoder-upper-limit-dropped", BANANA, "            if obj < self._smallestLongInt or obj > self._largestLongInt:\n", "            if obj < self._smallestLongInt:\n", expect_rule="encode/int-limit-refused"),
@@ -627,6 +635,7 @@ MUTANTS = [
            expect_rule="encode/int-forms"),
 ]
 SILENT = [
+    Silent('prefix-test-duplicated-per-branch', BANANA, '            if len(num) > self.prefixLimit:\n                raise BananaError(\n                    "Security precaution: longer than %d bytes worth of prefix"\n                    % (self.prefixLimit,)\n                )\n', '            if typebyte == FLOAT:\n                if len(num) > self.prefixLimit:\n                    raise BananaError("Security precaution: prefix too long")\n            else:\n                if len(num) > self.prefixLimit:\n                    raise BananaError("Security precaution: prefix too long")\n'),
     Silent("merge-int-branches", BANANA, "            elif typebyte == INT:\n                buffer = rest\n                num = b1282int(num)\n                gotItem(num)\n            elif typebyte == LONGINT:\n",
            "            elif typebyte == INT or typebyte == LONGINT:\n"),
     Silent("int-boundary-rewritten", BANANA, "            elif obj <= self._largestInt:\n", "            elif not obj > self._largestInt:\n"),
